@@ -79,7 +79,7 @@ Theorem C19_lock_witness :
   let w := run c2 (init t0 [KLoad 1; KLoad 1]) ev_lock in
   exists r0 r1, nth_error (procs w) 0 = Some r0 /\ nth_error (procs w) 1 = Some r1 /\
                 holding (pc_of r0) = true /\ holding (pc_of r1) = true /\
-                cache_err r0 = false /\ cache_err r1 = false /\ flock (sh w) = None.
+                cache_err r0 = false /\ cache_err r1 = false /\ locks (sh w) = [].
 Proof. exact lock_witness. Qed.
 Print Assumptions C19_lock_witness.
 
@@ -150,8 +150,12 @@ Theorem C19_fixed_load_succeeds : forall c ks,
 Proof. exact fixed_load_stmt. Qed.
 Print Assumptions C19_fixed_load_succeeds.
 
+(* The model's file system gives the lock file an identity (inode): unlink + re-create is a
+   different file, an open descriptor keeps the old one, advisory locks are per file.  Exclusion
+   holds for every number of contenders, every order of arrivals, waiters blocked inside acquire
+   when the holder leaves, kills at any point -- PROVIDED release does not remove the lock file. *)
 Theorem C19_fixed_lock_exclusive : forall c ks,
-  forallb is_fixed_kind ks = true -> lock_exclusive_stmt c ks.
+  unlink_on_release c = false -> forallb is_fixed_kind ks = true -> lock_exclusive_stmt c ks.
 Proof. exact fixed_lock_stmt. Qed.
 Print Assumptions C19_fixed_lock_exclusive.
 
@@ -169,19 +173,21 @@ Print Assumptions C19_fixed_finished_population.
 Theorem C19_fixed_timeout_gives_cache_error : forall c w p r q,
   nth_error (procs w) p = Some r ->
   (pc_of r = FAcquire \/ pc_of r = XAcquire) ->
-  flock (sh w) = Some q -> max_tries c <= S (tries r) ->
+  lget (locks (sh w)) (lock_ino (sh w) r) = Some q -> max_tries c <= S (tries r) ->
   exists r', proc_at (step c w (Run p)) p = Some r' /\
-             cache_err r' = true /\ holding (pc_of r') = false /\
-             flock (sh (step c w (Run p))) = Some q /\
+             cache_err r' = true /\ holding (pc_of r') = false /\ fd r' = None /\
+             locks (sh (step c w (Run p))) = locks (sh w) /\
              files_of (sh (step c w (Run p))) = files_of (sh w).
 Proof. exact fixed_timeout_gives_cache_error. Qed.
 Print Assumptions C19_fixed_timeout_gives_cache_error.
 
 Theorem C19_fixed_free_lock_acquired : forall c w p r,
   nth_error (procs w) p = Some r ->
-  (pc_of r = FAcquire \/ pc_of r = XAcquire) -> flock (sh w) = None ->
+  (pc_of r = FAcquire \/ pc_of r = XAcquire) ->
+  lget (locks (sh w)) (lock_ino (sh w) r) = None ->
   exists r', proc_at (step c w (Run p)) p = Some r' /\ holding (pc_of r') = true /\
-             flock (sh (step c w (Run p))) = Some p.
+             fd r' = Some (lock_ino (sh w) r) /\
+             lget (locks (sh (step c w (Run p)))) (lock_ino (sh w) r) = Some p.
 Proof. exact fixed_free_lock_acquired. Qed.
 Print Assumptions C19_fixed_free_lock_acquired.
 
@@ -197,6 +203,34 @@ Theorem C19_fixed_load_terminates : forall c t ks evs p v,
 Proof. exact fixed_load_terminates. Qed.
 Print Assumptions C19_fixed_load_terminates.
 
+(* ANTI-PATTERN, refuted: __exit__ that also removes cache_lock.lock ("tidy-up").  With three
+   contenders -- A holds, B is already waiting inside acquire with the file open, A leaves and
+   unlinks, B locks the nameless file, C creates and locks a new one -- B and C are inside together.
+   Nobody is killed.  The same schedule without the unlink keeps C out (contrast). *)
+Theorem C19_lock_exclusive_unlink_refuted :
+  exists c ks, forallb is_fixed_kind ks = true /\ unlink_on_release c = true /\
+               ~ lock_exclusive_stmt c ks.
+Proof. exact lock_exclusive_unlink_refuted. Qed.
+Print Assumptions C19_lock_exclusive_unlink_refuted.
+
+Theorem C19_unlink_witness :
+  let w := run c2u (init t0 [KLoadFixed 1; KLoadFixed 1; KLoadFixed 1]) ev_unlink in
+  no_crash ev_unlink /\
+  exists r1 r2, nth_error (procs w) 1 = Some r1 /\ nth_error (procs w) 2 = Some r2 /\
+                holding (pc_of r1) = true /\ holding (pc_of r2) = true /\
+                fd r1 = Some 0 /\ fd r2 = Some 1 /\ lockfile (sh w) = Some 1 /\
+                lget (locks (sh w)) 0 = Some 1 /\ lget (locks (sh w)) 1 = Some 2.
+Proof. exact unlink_witness. Qed.
+Print Assumptions C19_unlink_witness.
+
+Theorem C19_unlink_contrast :
+  let w := run c2 (init t0 [KLoadFixed 1; KLoadFixed 1; KLoadFixed 1]) ev_unlink in
+  exists r1 r2, nth_error (procs w) 1 = Some r1 /\ nth_error (procs w) 2 = Some r2 /\
+                holding (pc_of r1) = true /\ pc_of r2 = FAcquire /\ tries r2 = 1 /\
+                lockfile (sh w) = Some 0 /\ lget (locks (sh w)) 0 = Some 1.
+Proof. exact unlink_contrast. Qed.
+Print Assumptions C19_unlink_contrast.
+
 (* ---- non-vacuity ----------------------------------------------------------- *)
 
 Example C19_two_finish_example :
@@ -209,5 +243,5 @@ Example C19_fixed_example :
   let w := run c2 (init t0 [KLoadFixed 1; KLoadFixed 1; KLoadFixed 0; KRefreshFixed]) ev_fixed in
   pc_at w 0 = Some Dead /\ outcome_of w 1 = Some OLoaded /\ outcome_of w 2 = Some OLoaded /\
   outcome_of w 3 = Some OSkipped /\ ver w 0 = Some (good 2) /\ ver w 1 = Some (good 2) /\
-  flock (sh w) = None /\ fget (files_of (sh w)) (Tmp 0 0) = Some [Good].
+  locks (sh w) = [] /\ fget (files_of (sh w)) (Tmp 0 0) = Some [Good].
 Proof. exact fixed_example. Qed.
